@@ -4,7 +4,10 @@ from . import _buffer
 ID = 'C03'
 MODULE = _buffer.MODULE
 LEAN_SUBDIRS = _buffer.LEAN_SUBDIRS
-THEOREMS = ['AiutiVerif.Buffer.C03_kept_on_failure','AiutiVerif.Buffer.C03_delivered_on_success','AiutiVerif.Buffer.addInputs_superset']
+THEOREMS = ['AiutiVerif.Buffer.C03_conservation', 'AiutiVerif.Buffer.C03_conservation_final',
+            'AiutiVerif.Buffer.C03_only_submitted', 'AiutiVerif.Buffer.C03_all_delivered_at_rest',
+            'AiutiVerif.Buffer.C03_kept_on_failure', 'AiutiVerif.Buffer.C03_delivered_on_success',
+            'AiutiVerif.Buffer.addInputs_superset', 'AiutiVerif.Buffer.runProgram_K', 'AiutiVerif.Buffer.K_fresh']
 ASSUMPTIONS = list(_buffer.ASSUMPTIONS_COMMON)
 RULE = ('timed programs of up to 8 submissions (plain / awaitable / sync iterable / async iterable with producer delays and failures at any position) and wait() calls over a grid of gaps straddling the timeout (including same-instant submissions), any subset of the first 6 function invocations failing, function durations 0 / T/2 / 2T; every program runs on the real BufferAsyncCalls under a virtual clock and on the Lean machine, '
         'the event streams are compared on the components this property mentions, and an independent monitor '
